@@ -26,13 +26,13 @@ PROPS = {
         "lean": "Emu.Props.C03",
         "diffs": [
             {"cmd": "bt", "scenario": "c03x", "quick": 0, "thorough": 0, "args": {"all": []}, "exhaustive": True},
-            {"cmd": "bt", "scenario": "c03", "quick": 80, "thorough": 2000},
+            {"cmd": "bt", "scenario": "c03", "quick": 80, "thorough": 2000, "args": {"quick": ["--judge-random", "500"], "thorough": ["--judge-random", "6000"]}},
             {"cmd": "bt", "scenario": "c03big", "quick": 10, "thorough": 200},
         ],
         "facts": [],
         "trusted": BT_TRUST,
         "assumptions": ["set bounds of a RowRange are non-empty (the code reads an empty bound as unbounded; the property is silent)",
-                        "SampleRowKeys' random choices are not predicted: the response is checked against its relation"],
+                        "SampleRowKeys' random choices are not predicted: each `keys` request asks 400 times and every distinct answer must be an answer of the Model's loop for some sequence of draws (judged in Go while the program runs and again by the Lean function `sampleExplained`, proved exact in Props/C03)"],
     },
     "C05": {
         "lean": "Emu.Props.C05",
